@@ -111,7 +111,27 @@ def check_run(spec, r):
     cancelled_since = set()
     pending_q = {}
     need_q = {}
+    begin_stack = []
+    last_open = {}
+    n_sub = -1
+    flipped = set()
     for e in r['trace']:
+        if e['ev'] == 'submit':
+            n_sub = e['ord']
+        if e['ev'] == 'executed' and e.get('after') == 'EXECUTED':
+            b = next((x['pos_qty_before'] for x in reversed(begin_stack) if x['ord'] == e['ord']), None)
+            if b is not None and b * e['pos_qty_after'] < 0:
+                # a position flip (an order larger than the position on its closing side, e.g. the documented market replacement of a
+                # wrong-side exit sized for a bigger position): jesse cancels nothing then (C06 known finding); stop judging this symbol
+                flipped.add(e['sym'])
+                flags.add('stopped:position-flip')
+        if e['ev'] == 'execute':
+            begin_stack.append(e)
+        if e.get('sym') in flipped:
+            continue
+        if e['ev'] == 'hook' and e['name'] == 'on_open_position':
+            # orders of the new position cycle are the opening order's reaction orders and everything after
+            last_open[e['sym']] = (e.get('ord') if e.get('ord') is not None else n_sub)
         if e['ev'] == 'cancel' and e['before'] == 'ACTIVE':
             o = omap.get(e['ord'])
             if o and o['reduce_only']:
@@ -154,6 +174,19 @@ def check_run(spec, r):
                         vios.append((f'C10:sim={sim}:declarative:stale-{kind}-order', f"after() idx={e['idx']}: active {kind} order {o['ord']} (qty {o['qty']}, price {o['price']}) matches no unused row of the latest declaration {rows}"))
                     else:
                         used.add(hit)
+            # the converse: every declared row has an order of this position cycle (active, or already executed)
+            cycle_start = last_open.get(sym, -1)
+            for kind, key in (('stop-loss', 'stop_loss'), ('take-profit', 'take_profit')):
+                for q, p in [list(x) for x in (decl.get(key) or [])]:
+                    found = False
+                    for o in r['orders']:
+                        if o['sym'] != sym or o['ord'] <= cycle_start or o['via'] != kind or abs(o['qty']) != abs(q):
+                            continue
+                        if o['price'] == p or (o['type'] == 'MARKET' and near(p, o['price']) is not False):
+                            found = True
+                            break
+                    if not found and r['error'] is None:
+                        vios.append((f'C10:sim={sim}:declarative:declared-{kind}-row-has-no-order', f"after() idx={e['idx']}: {key} row ({q}, {p}) was declared but no {kind} order of this position exists"))
             if cancelled_since:
                 flags.add('modification-cancelled-old-exit')
         cancelled_since = set()
@@ -190,7 +223,7 @@ def run_shard(acc, shard, nshards, seed, tier):
     from vf.gen import sessions
     known = runner.known_signatures('C10')
     sess = sessions.session(minutes=(60, 200) if tier == 'quick' else (60, 400), max_data=0, warmup=(False,), align_len=True,
-                            program=dict(busy=True, boundary=True))
+                            program=dict(busy=True, boundary=True, fixed=True, cycle=True))
 
     def chk(spec):
         vios, flags, r = run_case(spec)
